@@ -73,7 +73,11 @@ func c06Packetise(rng *rand.Rand, codecName string, units []c06unit, seq0 uint16
 		if u.au {
 			// group up to 8 AUs with consecutive timestamps (ts, ts+1024, ...)
 			n := 1
-			for n < 8 && i+n < len(units) && units[i+n].au && units[i+n].ts == u.ts+uint32(1024*n) && rng.Intn(3) != 0 {
+			maxN, stop := 8, 3
+			if c06ManyAUs {
+				maxN, stop = 64, 40
+			}
+			for n < maxN && i+n < len(units) && units[i+n].au && units[i+n].ts == u.ts+uint32(1024*n) && rng.Intn(stop) != 0 {
 				n++
 			}
 			var aus [][]byte
@@ -156,6 +160,9 @@ func c06Packetise(rng *rand.Rand, codecName string, units []c06unit, seq0 uint16
 	return out
 }
 
+// c06ManyAUs switches the generator to long runs of AAC AUs grouped up to 64 per packet (set per case by runC06).
+var c06ManyAUs bool
+
 func c06Units(rng *rand.Rand, codecName string, n int, withAudio bool, sizeClass int, idBase uint64) []c06unit {
 	var units []c06unit
 	// RTP timestamps start at a random 32-bit value (RFC 3550) and are modular: the sequence may lie anywhere in the
@@ -192,9 +199,15 @@ func c06Units(rng *rand.Rand, codecName string, n int, withAudio bool, sizeClass
 	for len(units) < n {
 		if withAudio && rng.Intn(3) == 0 {
 			k := 1 + rng.Intn(4)
+			if c06ManyAUs {
+				k = 14 + rng.Intn(50) // long runs: 16 and more AUs per packet need a second AU-headers-length byte
+			}
 			for j := 0; j < k; j++ {
 				id++
 				sz := 1 + rng.Intn(800)
+				if c06ManyAUs {
+					sz = 1 + rng.Intn(300)
+				}
 				units = append(units, c06unit{data: kit.AACAU(sz, id), ts: ats, au: true})
 				ats += 1024
 			}
@@ -361,6 +374,10 @@ func runC06(c *kit.Ctx) {
 		if sizeClass == 2 {
 			n = 2 + rng.Intn(4)
 		}
+		c06ManyAUs = ci%3 != 0 && ci%7 == 5
+		if c06ManyAUs {
+			n += 40
+		}
 		units := c06Units(rng, codecName, n, ci%3 != 0, sizeClass, uint64(ci)<<20)
 		seq0 := uint16(65536 - rng.Intn(40))
 		if rng.Intn(3) == 0 {
@@ -381,6 +398,9 @@ func runC06(c *kit.Ctx) {
 			switch {
 			case p.p.Channel == kit.ChAudio:
 				kinds[fmt.Sprintf("aac%d", len(p.units))] = true
+				if len(p.units) >= 16 {
+					c.SetAdd("packet_kinds", "AAC:16-or-more-AUs-in-one-packet")
+				}
 			case p.frag > 0:
 				kinds["fu"] = true
 			case len(p.units) > 1 || (codecName == "H264" && pl[0]&0x1f == 24) || (codecName == "H265" && (pl[0]>>1)&0x3f == 48):
@@ -427,6 +447,8 @@ func runC06(c *kit.Ctx) {
 		}
 		c06PtsCheck(c, codecName, units, frames, matchIdx, detail)
 	}
+
+	c06ManyAUs = false
 
 	// ---------- loss / swap inside fragmented units
 	for ci := 0; ci < nLoss; ci++ {
